@@ -2,6 +2,7 @@ import Ivg.Lemmas.Options
 import Ivg.Lemmas.RenderHist
 import Ivg.Gen.Tie.Globals
 import Ivg.Gen.Tie.ParamWrites
+import Ivg.Gen.Tie.Code.Decoder10
 import Ivg.Obligations
 /-!
 # C14 — palette options
@@ -196,4 +197,8 @@ end Ivg.Props.C14
   Ivg.Props.C14.decoded_palette_valid, Ivg.Props.C14.reset_receives_palette, Ivg.Props.C14.seeds_registers,
   Ivg.Props.C14.seeds_registers_after_history,
   Ivg.Props.C14.palette_paint_flat,
-  Ivg.Gen.Tie.param_writes_frame, Ivg.Gen.Tie.no_global_writes]
+  Ivg.Gen.Tie.param_writes_frame, Ivg.Gen.Tie.no_global_writes,
+  -- regenerated code (translator) = model, for all inputs and option lists: decode.Decode WITH options (option loop in order, sanitising loop) = Dec.decode opts
+  Ivg.Gen.Tie.optFn_applyOption,
+  Ivg.Gen.Tie.decode_opts_code_tie,
+  Ivg.Gen.Tie.decode_Decode_opts_code_tie]
